@@ -12,6 +12,7 @@ import scipy
 
 from ....core.implementations import implementation
 from ....core.units import cm2int
+from ....core.managers import energy_units
 
 from ...hilbertspace.hamiltonian import Hamiltonian
 from ...liouvillespace.systembathinteraction import SystemBathInteraction
@@ -68,7 +69,8 @@ class TDRedfieldRateMatrix(TimeDependent):
         self.sbi = sbi
         
         if initialize: 
-            self._set_rates(ham,sbi)          
+            with energy_units("int"):
+                self._set_rates(ham,sbi)          
             self._is_initialized = True
                 
                 
